@@ -255,12 +255,17 @@ pub fn optimize(code: Vec<UnOptCode>, level: u8) -> Result<(OptState, Vec<OptCod
 
         let mut idx = opt_code_vec.len();
         for (i, opt_code) in opt_code_vec.iter().enumerate() {
-            let (new_state, next) = opt_execute(&mut stdin(), &mut out, &mut err, state, opt_code)?;
+            let mut cur_out = io::CustomWriter::new(|_| Result::Ok(()));
+            let mut cur_err = io::CustomWriter::new(|_| Result::Ok(()));
+            let (new_state, next) =
+                opt_execute(&mut stdin(), &mut cur_out, &mut cur_err, state, opt_code)?;
             state = new_state;
             if !next {
                 idx = i;
                 break;
             }
+            out.write_all(cur_out.to_string()?.as_bytes())?;
+            err.write_all(cur_err.to_string()?.as_bytes())?;
         }
         opt_code_vec = opt_code_vec[idx..].to_vec();
 
